@@ -22,6 +22,14 @@ CLAIMED = {
           "Generated outer/inner event timelines (cold and hot inners, every concurrency limit) are compared with a queue simulation; tagged items give exactly-once / per-inner order, a defer+finalize tracker gives the live inner-subscription maximum, panics and MutArc self-deadlocks are verdicts. Exploration within the stated bounds.",
           "Trusts the simulation in props/c05.rs and the tracker operator; self-deadlock detection relies on the verif_hooks lock hook (single thread: a held lock can only be held by the caller).",
           "DESIGN.md §3 C05"),
+  "C13": ("engine-P", "model-based PBT with instrumented closures: generated cold chains built once as CloneableBoxOp, cloned and subscribed successively and nested; counters + reference interpreter as oracle",
+          "Generated cold chains (counting source closures, defer factories, poll-counting futures, counting map/filter/scan/tap closures) are built once, then 2-3 clones are subscribed successively and one from inside a callback: all counters must be 0 after building, grow by exactly one per subscription, and every subscription must deliver the reference interpreter's sequence. Exploration within the stated bounds.",
+          "Trusts the reference interpreter and the counting wrappers; only operators with a cloneable form are generated (the C03 catalogue).",
+          "DESIGN.md §3 C13"),
+  "C20": ("engine-P", "oracle-from-script PBT (proptest tapes + shrinking) with probes attached to each announced group; bounded-exhaustive enumeration of short inputs; differential check of group_by+flat_map against the reference interpreter",
+          "For generated inputs x key functions x terminals (cold and hot sources, Subject and SubjectThreads groups) the global delivery log must equal the source partitioned by key: announcement order, per-item group and step, one terminal per group and for the stream of groups; all inputs of length <= 5 over {0,1,2} are enumerated; flattening the groups must reproduce the source. Exploration within those bounds.",
+          "Trusts the list code in props/c20.rs that derives the expected partition from the script; cross-group terminal order is deliberately unconstrained.",
+          "DESIGN.md §3 C20"),
   "C18": ("engine-P", "differential / metamorphic PBT: every generated case is built from local types and from thread-safe types and the two delivered histories are compared",
           "Each generated pipeline+script is run twice on one thread (local forms vs every _threads/Threads form, same virtual scheduler choices); traces, is_closed() samples and finalize counts must be identical; a panic or self-deadlock in one build only is a difference. Exploration within the stated bounds.",
           "Trusts the two instantiations of the same builder text (build_body.rs) to differ only in the local/thread-safe forms; self-deadlock of a non-reentrant MutArc is detected through the verif_hooks lock hook.",
